@@ -88,6 +88,8 @@ def run(tier, seed, replay=None):
     rep = Report("C01", tier, seed)
     rng = Rng(seed)
     proof_stage(rep, "C01")
+    # tie by translation (T5): the three observers of the closure idiom, parsed from /repo/src, call exactly the closure meant
+    proof_stage(rep, "C01src", limit=400)
     if not build_stage(rep):
         return rep.finish()
     cases = load_replay_case(replay) if replay else cases_for(tier, rng) + tchain.cases(tier, rng)
